@@ -49,7 +49,9 @@ func (e *engine) checkCliLine(worker int, raw []byte) error {
 	var patchTexts [][]byte
 	h := hashSeed(raw, e.seed)
 	for j, kind := range ln.Files {
-		path := filepath.Join(dir, fmt.Sprintf("f%d.json", j))
+		// the same kind named twice is the SAME file given twice on the command line
+		path := filepath.Join(dir, kind+".json")
+		_ = j
 		switch kind {
 		case "notpatch":
 			os.WriteFile(path, []byte(`{"a":1}`), 0o644)
